@@ -638,6 +638,9 @@ class C08(Prop):
         case['runs'] = distinct_inputs(rng, rng.choice([2, 2, 3, 4] if self.tier == 'quick' else [2, 3, 4, 5, 6]))
         if rng.random() < 0.25:
             case['cancel'] = {str(rng.randrange(1, 120)): [rng.randrange(len(case['runs']))]}
+        if rng.random() < 0.5:
+            # staggered starts: some runs begin when the scheduler says so, in the middle of the others
+            case['stagger'] = sorted(rng.sample(range(1, len(case['runs'])), rng.randint(1, len(case['runs']) - 1)))
         return case
 
     def judge(self, case, rec, refs, sd):
